@@ -1844,6 +1844,12 @@ func main() {
 				} else {
 					out.Line("# skipped unparsable %s", line)
 				}
+			case "to":
+				if c, ok := parseTO(f[2:]); ok {
+					out.Line("%s => %s", c.input(), runTOp(c))
+				} else {
+					out.Line("# skipped unparsable %s", line)
+				}
 			case "fs":
 				if c, ok := parseFS(f[2:]); ok {
 					emitFS(c)
@@ -1882,6 +1888,9 @@ func main() {
 			emitTR(genTR(r, k, total, thorough))
 		} else if mode == "fs" {
 			emitFS(genFS(r))
+		} else if mode == "to" {
+			c := genTO(r)
+			out.Line("%s => %s", c.input(), runTOp(c))
 		} else if mode == "tp" {
 			emitTP(genTP(r, k, total, thorough))
 		} else if k%2 == 0 {
